@@ -32,6 +32,40 @@ def scope_of(prog):
     return roots, [b for b in reachable_bodies(prog, roots) if b.pkg == 'mla']
 
 
+def growth_sites(body):
+    """(block, kind, size operand, container description, callee, key) of every growth / allocation site of the body"""
+    cnt = collections.Counter()
+    for b in body.calls():
+        t = b.term
+        cn = cnorm(t)
+        m = t.cmethod
+        kind = None
+        size_op = None
+        if m in GROW_METHODS and any(c in cn for c in CONTAINERS):
+            kind = 'grow'
+        elif m in ALLOC_METHODS and any(c in cn for c in CONTAINERS + ('BufReader', 'BufWriter')):
+            kind = 'alloc'
+            size_op = t.args[1] if m in ('resize', 'reserve', 'reserve_exact', 'resize_with') else t.args[0]
+        elif 'vec::from_elem' in cn:
+            kind = 'alloc'
+            size_op = t.args[1]
+        elif m in ('read_to_end', 'read_to_string') and t.ctrait == 'std::io::Read':
+            kind = 'read_all'
+        elif m == 'collect' and t.ctrait == 'std::iter::Iterator':
+            kind = 'collect'
+        elif cn == 'std::io::copy' and 'Vec<' in (t.callee.get('targs') or ['', ''])[-1]:
+            kind = 'copy_into_vec'
+        elif m in ('to_vec', 'to_owned', 'into_vec') and t.arg_tys and '[u8]' in t.arg_tys[0]:
+            kind = 'dup_bytes'
+        if kind is None:
+            continue
+        tgt = census.describe(body, t.args[0], 1) if t.args else ''
+        base = '%s|%s|%s' % (body.nkey, (cn.split('::')[-2] + '::' + m) if '::' in cn else m, tgt)
+        key = 'R15|%s#%d' % (base, cnt[base])
+        cnt[base] += 1
+        yield (b, kind, size_op, tgt, cn, key)
+
+
 def run(prog, rep, tier):
     roots, scope = scope_of(prog)
     rep.floor('R15.roots', len(roots), 25, 'streaming entry points')
@@ -50,37 +84,21 @@ def run(prog, rep, tier):
             elif tg and tg != 'tmp':
                 local_class.setdefault((parts[1], tg), e)
     for body in sorted(scope, key=lambda b: b.nkey):
-        cnt = collections.Counter()
-        for b in body.calls():
+        sites = list(growth_sites(body))
+        # reviewed per-file sites on function-scoped containers, with the `match` arm of the block kind they sit in
+        arm_edges = [(sbb, tg_) for sbb, si_ in arm_of_enum_switch(prog, body) if (si_['adt'] or '').endswith('ArchiveFileBlock') for tg_ in set(si_['arms'].values()) if tg_ is not None] \
+            if any(k_ in table and '.' not in tgt_ for (_, _, _, tgt_, _, k_) in sites) else []
+        reviewed_arm = {}
+        for (b_, kind_, _, tgt_, _, k_) in sites:
+            if k_ in table and kind_ == 'grow' and '.' not in tgt_ and table[k_]['class'] == 'per-file':
+                for ed in arm_edges:
+                    if body.edge_dominates(ed, b_.idx):
+                        reviewed_arm.setdefault(ed, table[k_])
+        for (b, kind, size_op, tgt, cn, key) in sites:
             t = b.term
-            cn = cnorm(t)
             m = t.cmethod
-            kind = None
-            size_op = None
-            if m in GROW_METHODS and any(c in cn for c in CONTAINERS):
-                kind = 'grow'
-            elif m in ALLOC_METHODS and any(c in cn for c in CONTAINERS + ('BufReader', 'BufWriter')):
-                kind = 'alloc'
-                size_op = t.args[1] if m in ('resize', 'reserve', 'reserve_exact', 'resize_with') else t.args[0]
-            elif 'vec::from_elem' in cn:
-                kind = 'alloc'
-                size_op = t.args[1]
-            elif m in ('read_to_end', 'read_to_string') and t.ctrait == 'std::io::Read':
-                kind = 'read_all'
-            elif m == 'collect' and t.ctrait == 'std::iter::Iterator':
-                kind = 'collect'
-            elif cn == 'std::io::copy' and 'Vec<' in (t.callee.get('targs') or ['', ''])[-1]:
-                kind = 'copy_into_vec'
-            elif m in ('to_vec', 'to_owned', 'into_vec') and t.arg_tys and '[u8]' in t.arg_tys[0]:
-                kind = 'dup_bytes'
-            if kind is None:
-                continue
             rep.fn(body)
             n += 1
-            tgt = census.describe(body, t.args[0], 1) if t.args else ''
-            base = '%s|%s|%s' % (body.nkey, (cn.split('::')[-2] + '::' + m) if '::' in cn else m, tgt)
-            key = 'R15|%s#%d' % (base, cnt[base])
-            cnt[base] += 1
             seen.add(key)
             # (a) automatically bounded
             auto = None
@@ -140,6 +158,14 @@ def run(prog, rep, tier):
                             e = field_class.get(fname)
                 else:
                     e = local_class.get((body.nkey, tgt))
+                    if e is None and kind == 'grow':
+                        # another function-scoped container filled in the same `match` arm (one block kind) as a reviewed per-file container:
+                        # it grows as often as that one does
+                        lo = origins(body, [t.args[0].place[0]], through_calls=False) if t.args and t.args[0].place is not None else None
+                        if lo is not None and not lo.params and not lo.fields:
+                            for ed, e_ in reviewed_arm.items():
+                                if body.edge_dominates(ed, b.idx):
+                                    e = e_
             elif kind == 'collect' and t.args and t.args[0].place is not None:
                 fo = origins(body, [t.args[0].place[0]])
                 names = {f[-1] for f in fo.fields if f}
